@@ -483,21 +483,29 @@ def range_rule(ck, F, P):
                         if sr.dominates(t, b) and (v in info[1] or t == info[2]):
                             variant = n
             lit = None
-            for e in (en, st):
+            shape = ""
+            for (which, e) in (("end", en), ("start", st)):
                 if e[0] == "place" and e[1][0] == "binop" and e[1][1] in ("AddWithOverflow", "SubWithOverflow"):
                     c = strip_expr(e[1][3])
                     if c[0] == "const" and c[1].get("int") is not None:
                         lit = c[1]["int"]
+                        shape += "%s%s%s" % (which, "+" if e[1][1].startswith("Add") else "-", lit)
                 if e[0] == "binop" and e[1] in ("Add", "Sub"):
                     c = strip_expr(e[3])
                     if c[0] == "const":
                         lit = c[1].get("int")
+                        shape += "%s%s%s" % (which, "+" if e[1] == "Add" else "-", lit)
                 if e[0] == "call" and e[1].split("::")[-1] in ("saturating_add", "wrapping_add", "checked_add", "saturating_sub"):
                     lit = "call"
             short = fn.split("::")[-1]
+            if lit == 0:
+                lit = None      # bound + 0 is the bound
             if lit is not None:
                 key = "%s:RANGE:syntax_error::TokenizationError::string_range:%s" % (P, variant) if short == "string_range" \
                     else "%s:RANGE:%s#%d" % (P, short, k)
+                # the recorded finding is the range i..i+1; any other arithmetic at the same site is a different violation
+                if short == "string_range" and shape not in ("end+1", ""):
+                    key += ":" + shape
                 ck.bad(key, "range construction",
                        "%s builds a source range whose bound is another bound +/- %s: the offending character may be multi-byte "
                        "(`10 é` gives 3..4, which splits a 2-byte char) or the range may leave the line (an end-of-line error "
